@@ -256,6 +256,9 @@ def main(argv):
                 "GODEBUG": "randautoseed=0", "VERIF_DIR": VERIF, "VERIF_REPO_DIR": REPO,
                 "VERIF_HELPER_DIR": scratch, "VERIF_PART": p["name"],
             })
+            pf = os.path.join(scratch, "poison_%s_%d.json" % (p["name"], s))
+            if os.path.exists(pf):
+                env["VERIF_POISON"] = pf
             if replay:
                 env["VERIF_REPLAY"] = replay
             if p.get("gomaxprocs"):
@@ -274,6 +277,9 @@ def main(argv):
             return (pr, job, log, fh)
 
         pending = list(jobs)
+        crash_violations = []
+        attempts = {}
+        poison = {}
         while pending or running:
             while pending and len(running) < ncpu:
                 running.append(start(pending.pop(0)))
@@ -287,12 +293,43 @@ def main(argv):
                 fh.close()
                 logs.append(log)
                 if rc != 0:
+                    p, sh, n = job
+                    base = os.path.join(outdir, "%s.%s.%d" % (pid, p["name"], sh))
+                    txt = open(log, errors="replace").read()
+                    crashed = not os.path.exists(base + ".json") and os.path.exists(base + ".journal") and ("panic:" in txt or "fatal error:" in txt) and "WATCHDOG" not in txt
+                    if crashed and not replay:
+                        # the engine crashed the harness process: attribute it to the journaled schedule, then go on without it
+                        j = json.load(open(base + ".journal"))
+                        os.remove(base + ".journal")
+                        m = re.search(r"^(panic: .*|fatal error: .*)$", txt, re.M)
+                        what = m.group(1) if m else "process crashed"
+                        key = (p["name"], sh)
+                        poison.setdefault(key, []).append({"scenario": j["scenario"], "prefix": j["prefix"]})
+                        rdir = os.path.join(replay_dir, pid)
+                        os.makedirs(rdir, exist_ok=True)
+                        import hashlib
+                        rfile = os.path.join(rdir, "%s-crash-%s.json" % (p["name"], hashlib.sha256(json.dumps(j, sort_keys=True).encode()).hexdigest()[:12]))
+                        json.dump({"property": pid, "part": p["name"], "key": pid + "/engine-panic", "text": what,
+                                   "replay": {"scenario": j["scenario"], "params": j.get("params"), "schedule": j["prefix"]}}, open(rfile, "w"), indent=1)
+                        stack_tail = txt[txt.find(what):][:3000]
+                        crash_violations.append({"key": pid + "/engine-panic", "text": "the engine crashed the process while executing schedule %s of scenario %s: %s\n%s" % (j["prefix"], j["scenario"], what, stack_tail), "replay_file": rfile})
+                        attempts[key] = attempts.get(key, 0) + 1
+                        if attempts[key] <= 6:
+                            pf = os.path.join(scratch, "poison_%s_%d.json" % (p["name"], sh))
+                            json.dump(poison[key], open(pf, "w"))
+                            pending.append((p, sh, n))
+                            continue
                     failed.append((job, rc, log))
             running = still
         # merge
         merged = merge(pid, tier, seed, cfg, parts, outdir, build_s, t_start)
         known = load_known()
         new_violations = []
+        seen_crash = set()
+        for v in crash_violations:
+            if v["key"] not in seen_crash:
+                seen_crash.add(v["key"])
+                merged["_violations"].append(v)
         for v in merged["_violations"]:
             k = next((f for f in known if f.get("property") == pid and f.get("status") == "known" and f.get("key") == v["key"]), None)
             if k:
